@@ -92,7 +92,9 @@ def ob(prop, oid, args, **kw):
 
 
 def obligations(prop, tier):
-    out = [o for (p, _), o in REGISTRY.items() if p == prop]
+    out = [o for (p, _), o in REGISTRY.items() if p == prop and (o.tier != "witness" or tier == "witness")]
+    if tier == "witness":
+        return out
     if tier == "quick":
         out = [o for o in out if o.tier == "quick"]
     return out
